@@ -1214,6 +1214,7 @@ class AbsInt:
                     return False
                 self._write_back(mem, ra, new, cur)
             return True
+        negated = not truth
         if not truth:
             op = NEG[op]
         if not (isinstance(av, Num) and isinstance(bv, Num)):
@@ -1222,6 +1223,13 @@ class AbsInt:
         a_cur = self._cur(mem, ra, av)
         b_cur = self._cur(mem, rb, bv)
         na, nb = refine_cmp(op, a_cur, b_cur)
+        if negated and is_float(a_cur.ty) and (a_cur.nan or b_cur.nan) and op != "Eq":
+            # the false branch of a float comparison is also taken when an operand is NaN: `!(a <= b)` is `a > b` OR unordered.
+            # NaN-ness survives, and a side can only be narrowed when the *other* side cannot be NaN.
+            if na is None or nb is None:
+                na, nb = a_cur, b_cur
+            na = (na if not b_cur.nan else a_cur).copy(nan=a_cur.nan)
+            nb = (nb if not a_cur.nan else b_cur).copy(nan=b_cur.nan)
         if na is None or nb is None:
             return False
         self._write_back(mem, ra, na, a_cur)
